@@ -721,6 +721,14 @@ def p_C19(ctx):
     import cli
     st = ctx.mc("MC_C19", "MC_C19_quick.cfg" if ctx.quick else "MC_C19_thorough.cfg", timeout=6000)
     cli_replay(ctx, cli.c19_case, list(vlib.mc_cases(st)), "configs", "Trace_C19")
+    n19 = ctx.ncases
+    trace19 = ctx.last_trace
+    # the program state machine (spec/Program.tla): a run refused with 1 / 64 / 65 leaves no result
+    pst = ctx.mc("MC_Program", "MC_Program_quick.cfg" if ctx.quick else "MC_Program_thorough.cfg", timeout=3000)
+    cli_replay(ctx, cli.prog_case, list(stride(vlib.mc_cases(pst), 1 if ctx.quick else 3, 0)), "program", "Trace_Prog19")
+    ctx.extra["program_configurations"] = ctx.ncases - n19
+    ctx.extra["program_conformance_drift"] = len(ctx.drifts)
+    ctx.last_trace = trace19
     ctx.nontrivial = set(range(ctx.ncases))
     ctx.extra["exhaustive"] = not ctx.quick
     ev = [json.loads(l) for l in open(ctx.last_trace).readlines()[100:103]]
@@ -807,7 +815,16 @@ def p_C16(ctx):
         for b in ("NaN", "-inf", "x", "0"):
             opts.append({"kind": "option", "argv": ["--red1", a, b, "0.3", "--red2", b, "1", a]})
     cli_replay(ctx, cli.fault_cli_case, recs + texts + opts, "cli", "Trace_C16")
-    ctx.extra["processes"] = len(recs) + len(texts) + len(opts)
+    last_cli = ctx.last_trace
+    # the program state machine (spec/Program.tla): unreadable / empty / foreign inputs, unwritable outputs, flags
+    pst = ctx.mc("MC_Program", "MC_Program_quick.cfg" if ctx.quick else "MC_Program_thorough.cfg", timeout=3000)
+    progs = list(vlib.mc_cases(pst))
+    nd = len(ctx.drifts)
+    cli_replay(ctx, cli.prog_case, progs, "program", "Trace_Prog16")
+    ctx.extra["program_configurations"] = len(progs)
+    ctx.extra["program_conformance_drift"] = len(ctx.drifts) - nd
+    ctx.last_trace = last_cli
+    ctx.extra["processes"] = len(recs) + len(texts) + len(opts) + len(progs)
     ctx.extra["evaluations"] = ctx.events
     ctx.nontrivial = distinct | soups
     sample_cli = [json.loads(l) for l in open(ctx.last_trace).readlines()[50:52]]
